@@ -97,6 +97,11 @@ func (p Password) Match(pw string) (bool, error) {
 }
 
 func (p *Password) UnmarshalJSON(b []byte) error {
+	if string(b) == "null" {
+		// no password, not the empty password
+		*p = Password{}
+		return nil
+	}
 	var k string
 	err := json.Unmarshal(b, &k)
 	if err == nil {
@@ -115,7 +120,8 @@ func (p *Password) UnmarshalJSON(b []byte) error {
 }
 
 func (p Password) MarshalJSON() ([]byte, error) {
-	if p.Type == "plain" && p.Hash == "" && p.Salt == "" && p.Iterations == 0 {
+	if p.Type == "plain" && p.Key != nil &&
+		p.Hash == "" && p.Salt == "" && p.Iterations == 0 {
 		return json.Marshal(p.Key)
 	}
 	return json.Marshal(RawPassword(p))
